@@ -88,6 +88,7 @@ func checkText(t *testing.T, r *rep.R, s string, entries []int) {
 		e := textEntries[ei]
 		r.Add("evaluations", 1)
 		r.Add("text_calls", 1)
+		r.Add("transitions", 1)
 		if what, detail := guard(t, func() { e.f(s) }); what != "" {
 			r.Violation(what+":"+e.name+":"+site(detail), fmt.Sprintf("%s(%q): %s: %s", e.name, s, what, rep.Short(detail)), Case{Kind: "text", Text: s, Entry: e.name})
 		}
@@ -98,6 +99,7 @@ func checkText(t *testing.T, r *rep.R, s string, entries []int) {
 func define(t *testing.T, r *rep.R, script string, tt kapacitor.TaskType, vars map[string]tick.Var, kind string) {
 	r.Add("evaluations", 1)
 	r.Add("define_calls", 1)
+	r.Add("transitions", 1)
 	accepted := false
 	what, detail := guard(t, func() {
 		env, err := kit.NewEnv("c05")
@@ -281,6 +283,7 @@ func baseJSONs(t *testing.T) []string {
 func checkJSON(t *testing.T, r *rep.R, doc string) {
 	r.Add("evaluations", 1)
 	r.Add("json_calls", 1)
+	r.Add("transitions", 1)
 	ok := false
 	what, detail := guard(t, func() {
 		p := &pipeline.Pipeline{}
